@@ -24,12 +24,21 @@ MANIFEST = dict(
           "on KKT-constructed LPs/QPs (random active sets, rank-deficient Q=D'D, mixed magnitudes, default and user x0), "
           "equivalent restatements, infeasible/unbounded constructions and small integer programs; the property's own "
           "inequalities are checked on every converged state against the constructed optimum or an exact rational "
-          "decision (Fourier-Motzkin + active-set enumeration). The Newton iteration, Eigen's LU row reduction and "
-          "floating-point rounding are searched, not proved."),
-    note=("Coq kernel; translator (5 decision kernels of solver.cpp); extraction with ExtrOcamlZBigInt (Zarith); harness "
+          "decision (Fourier-Motzkin + active-set enumeration). program::reduce is inside the model: the reduced [A'|b'] "
+          "is assembled from a full-pivoting LU factorisation of [A|b]^T given as an oracle answer exactly as util.cpp forms "
+          "U^T.block(0,0,rank,n)*L^T*P, and for every valid factorisation the solution set of A x = b is exactly preserved, "
+          "inconsistency is preserved, rank = rows returns the system unchanged; per run the library's program::reduce is "
+          "called on [A|b] systems with dependent rows next to Eigen's fullPivLu (same call): the printed factors are checked "
+          "to be a factorisation, the model's assembly is compared with the library's output, and the row spaces of [A|b] and "
+          "of the library's [A'|b'] are compared by exact elimination over Q. The step-length kernel (make_smax, s0*smax, "
+          "s *= beta) is modelled from translated expressions: u > 0 and s0 < 1 imply u + s*du > 0. The Newton iteration as "
+          "a whole, that Eigen's fullPivLu returns a factorisation, and floating-point rounding are searched, not proved."),
+    note=("Coq kernel; translator (5 decision kernels + 9 step-length kernels of solver.cpp, 12 integer kernels of util.cpp); extraction with ExtrOcamlZBigInt (Zarith); harness "
           "against the library built from the working tree + OCaml driver + exact rational oracle in tools/checks/c04.py; "
-          "square roots are not modelled (norm divisors are inputs checked against the exact squares); `reduce` is taken "
-          "from the library (program::reduce) and only its effect on converged states is checked."),
+          "square roots are not modelled (norm divisors are inputs checked against the exact squares); the LU factorisation "
+          "inside program::reduce is an oracle answer whose validity is checked per run on the factors Eigen returns (exactly "
+          "when they are exact in doubles, within 1e-12 otherwise); make_smax is in an anonymous namespace: its expressions are "
+          "translated, its effect is observed only as u > 0 on every returned state."),
     technique="Coq proof over Q of a translated+extracted model, differential correspondence within rounding tolerance, "
               "direct property oracles on the implementation (constructed optima, exact rational decision)",
     design="DESIGN.md section 2, C04")
@@ -70,6 +79,21 @@ def _build_driver():
         if rc != 0:
             raise vlib.CheckError("ocaml build of c04_driver failed:\n%s" % out[-3000:])
     return exe
+
+
+def _seed_last_good_kernels():
+    """an alternate tree (VERIF_REPO) starts with an empty coq/generated: one kernel that no longer translates would leave no
+    Src_c04.v at all and with it no extracted model and no driver, i.e. no correspondence stage on exactly the changes that
+    matter. Start from the main tree's last good file, as a run in the main tree does; translate.run overwrites it whenever
+    every kernel translates (and reports the kernel that does not)."""
+    if not vlib.ALT:
+        return
+    src = os.path.join(vlib.ROOT, "coq", "generated", "Src_c04.v")
+    dst = os.path.join(vlib.COQ, "generated", "Src_c04.v")
+    if os.path.exists(src) and not os.path.exists(dst):
+        os.makedirs(os.path.dirname(dst), exist_ok=True)
+        with vlib.Lock("coq"):
+            open(dst, "w").write(open(src).read())
 
 
 def setup():
@@ -419,6 +443,7 @@ def run(tier, replay=None):
     if replay:
         return _replay(replay)
     r = vlib.Run("C04", tier)
+    _seed_last_good_kernels()
     cres = vlib.coq_check("C04", targets=["theories/Extract_C04.vo", "theories/Properties_C04.vo"])
     exe = vlib.build_harness("c04_program", "rel", need_lib=True)
     nchunks, ncases = CHUNKS.get(tier, CHUNKS["quick"])
@@ -588,7 +613,7 @@ def run(tier, replay=None):
         pl["kind"] = ("program::reduce does not preserve the solution set of the equality system A x = b (conclusion of "
                       "C04_reduce_same_solutions / C04_reduce_inconsistent_preserved evaluated on the implementation by exact elimination "
                       "over Q): hexadecimal doubles, rows separated by `;`")
-        r.violation("reduce-%s" % what, pl)
+        r.violation(what, pl)
     for i, (ch, l) in enumerate(prop[:2]):
         case = byid.get((ch, re.search(r"id=(\S+)", l).group(1)), "")
         r.violation("prop-%d" % i, {"kind": "feasibility clause violated (exact arithmetic, driver oracle)", "detail": l,
@@ -636,9 +661,16 @@ def run(tier, replay=None):
 
     vlib.handle_coq_failure(r, cres)
     vlib.proof_coverage(r, cres, "make -C coq theories/Properties_C04.vo && coqc theories/Properties_C04.v (Print Assumptions)",
-                        ["tools/translate.py (5 decision kernels of src/program/solver.cpp, instantiated at an order embedding Q -> Z)",
+                        ["tools/translate.py (5 decision kernels of src/program/solver.cpp, instantiated at an order embedding Q -> Z; "
+                         "9 step-length kernels instantiated at numerators over a common denominator, the quotient -u(i)/du(i) is an atom "
+                         "pinned by its text; 12 integer kernels of src/program/util.cpp: early-return test, inner dimension, block "
+                         "arguments, stacked width, split column)",
                          "extraction: ExtrOcamlBasic + ExtrOcamlZBigInt (Z/positive -> Zarith)",
-                         "program::reduce of the library supplies the reduced equality system to the model (not modelled)",
+                         "Eigen's fullPivLu as an oracle: the factors printed by the harness (same call as util.cpp) are checked to be a "
+                         "factorisation on every system (lu_valid_b exactly / 1e-12); the matrix product of the assembly is modelled entry by "
+                         "entry (the order of the floating-point summation is not)",
+                         "the reduced system of the SOLVE lines is still the library's own output (compared with the model on the REDUCE "
+                         "lines of the same programs: every program with a restated/contradicting equality row and 1 in 8 of the others)",
                          "norm divisors computed by the harness with the same Eigen calls, checked against exact squares (1e-12)",
                          "ocaml/c04_driver.ml, harness/c04_program.cpp, exact rational oracle in tools/checks/c04.py (python fractions)"])
     cov = r.coverage
@@ -668,16 +700,24 @@ def run(tier, replay=None):
     cov["unproved_clauses_searched"] = [
         "the Newton iteration / line search actually reaches a state that passes done() (convergence itself; not claimed by the property)",
         "floating-point evaluation of update()/feasible()/done() agrees with the exact model (compared per state within 1e-9 of the summed terms + 1e-12)",
-        "row reduction of dependent equalities (Eigen fullPivLu in program::reduce) preserves the solution set: taken from the library, "
-        "checked only through the feasibility of converged states on the caller's rows",
+        "Eigen's fullPivLu returns a factorisation P M^T Q = L U with the numerical rank equal to the exact rank of [A|b] (hypothesis "
+        "lu_valid of the reduce theorems): checked on every REDUCE system; the exact rank is recomputed by elimination over Q",
+        "floating-point evaluation of U^T.block * L^T * P agrees with the exact assembly (1e-9 of the summed terms) and leaves the row "
+        "space of [A|b] unchanged (exact elimination over Q, 1e-9)",
+        "the step-length kernel in floating point: fl(-u/du), fl(s0*smax), fl(u + s*du) keep u > 0 (theorem over Q; observed as u > 0 on "
+        "every returned state of the inequality path, `returned_states_u_checked`); the loop structure `for (i = 0; i < size; ++i)` is "
+        "modelled with the translated start/condition and a hand-written increment",
         "`converged` is never reported for an unbounded program (model theorem covers infeasibility only): constructed rays + exact decision",
         "reported objective agrees with the objective at x within 1e-6 of its terms (stale trial-point objective: see defect_candidates)",
         "lower side of |f(x)-f*| with the *returned* multipliers in the bound (theorem C04_gap_lower uses the multipliers of the optimum)",
         "solve_without_inequality (no inequality rows): status taken from an LDLT residual test that is not modelled"]
     cov["excluded_inputs"] = ["states returned with status unfeasible/unbounded: objective/residual fields are not compared "
                               "(they may belong to the last trial point; counted as stale_states), the decision is still re-taken"]
-    r.assumptions = ["the returned multipliers u are non-negative and Q is symmetric positive semidefinite (hypotheses of the gap theorems; "
-                     "Q = D'D by construction in every generated program)",
+    r.assumptions = ["the returned multipliers u are non-negative (now a theorem of the step-length model over Q for s0 < 1, C04_step_keeps_positive; "
+                     "in floating point checked on every returned state) and Q is symmetric positive semidefinite (hypotheses of the gap "
+                     "theorems; Q = D'D by construction in every generated program)",
+                     "solver::s0 < 1 (default 0.999; the registered range allows s0 = 1, for which only u >= 0 is provable: "
+                     "C04_step_strict_with_s0_one_refuted)",
                      "doubles cross the boundary exactly (hex floats -> dyadic rationals)",
                      "tolerances are exactly those of the property text; the correspondence tolerance is 1e-9 of the summed magnitudes + 1e-12"]
     return r.finish("proof")
